@@ -324,6 +324,9 @@ func (g *gen) optField(sc *scope) FieldDesc {
 		f.Cb = 12
 	case "Fe":
 		f.Cb = 13
+		if g.chance(0.35) {
+			f.Cb = 14 // a callback without parameters that refuses
+		}
 	}
 	return f
 }
